@@ -78,3 +78,57 @@ def strip_stop(d, n):
     while d.ops[n] == 'stop':
         n = d.args[n][0]
     return n
+
+
+def subst(d, roots, mapping):
+    """like DAG.substitute, but sub-terms below a mapped node are not visited (a mapped node is opaque)"""
+    out = dict(mapping)
+    order = []
+    seen = set(out)
+    stack = [(r, False) for r in roots]
+    while stack:
+        n, done = stack.pop()
+        if done:
+            order.append(n)
+            continue
+        if n in seen:
+            continue
+        seen.add(n)
+        stack.append((n, True))
+        for c in d.children(n):
+            if c not in seen:
+                stack.append((c, False))
+    for n in order:
+        op = d.ops[n]
+        a = d.args[n]
+        if op in ('const', 'var', 'bconst'):
+            out[n] = n
+        elif op == 'add':
+            out[n] = d.add(out[a[0]], out[a[1]])
+        elif op == 'mul':
+            out[n] = d.mul(out[a[0]], out[a[1]])
+        elif op == 'div':
+            out[n] = d.div(out[a[0]], out[a[1]])
+        elif op == 'ipow':
+            out[n] = d.ipow(out[a[0]], a[1])
+        elif op == 'stop':
+            out[n] = d.stop(out[a[0]])
+        elif op == 'ite':
+            out[n] = d.ite(out[a[0]], out[a[1]], out[a[2]])
+        elif op == 'uf':
+            out[n] = d.uf(a[0], *[out[x] for x in a[1:]])
+        elif op == 'le':
+            out[n] = d.le(out[a[0]], out[a[1]])
+        elif op == 'lt':
+            out[n] = d.lt(out[a[0]], out[a[1]])
+        elif op == 'eq':
+            out[n] = d.eq(out[a[0]], out[a[1]])
+        elif op == 'and':
+            out[n] = d.and_(*[out[c] for c in a])
+        elif op == 'or':
+            out[n] = d.or_(*[out[c] for c in a])
+        elif op == 'not':
+            out[n] = d.not_(out[a[0]])
+        else:
+            raise ValueError(op)
+    return [out[r] for r in roots]
